@@ -199,11 +199,13 @@ end Kodama
 * `C01_nnchain_exact`  all five chain methods in exact arithmetic (`FieldLaws K`, no NaN).
 * `C01_linkage`   through `linkage_with` for every method it routes to mst or nnchain.
 
-NOT proved: `ChainReducible` for Ward over IEEE floats (weighted: see `Props/C01Weighted.lean` — reducible on floats by monotone rounding, under the sampled laws `HalfAddLaws`; Ward is FALSE there: rounding
-breaks it in ~11% of tied updates) — for these on floats the claim rests on the bit-exact
-correspondence and the structural validator.  For AVERAGE it was false too until the `fix:` commit of
-the crate (clamp of the mean from below); it is now a theorem for every `OrderLaws α`, see
-`Props/C01Average.lean` (`C01_nnchain_average`, `C01_linkage_average`).
+`ChainReducible` over IEEE floats: weighted: see `Props/C01Weighted.lean` — reducible on floats by
+monotone rounding, under the sampled laws `HalfAddLaws`.  For AVERAGE it was false until the `fix:`
+commit of the crate (clamp of the mean from below); it is now a theorem for every `OrderLaws α`, see
+`Props/C01Average.lean` (`C01_nnchain_average`, `C01_linkage_average`).  For WARD it was false too
+(rounding broke it in ~11% of tied updates; failing run of the real crate: n = 32, f64) until the
+second `fix:` commit (guarded clamp of the quotient from below); it is now a theorem for every
+`OrderLaws α`, see `Props/C01Ward.lean` (`C01_nnchain_ward`, `C01_linkage_ward`).
 -/
 namespace Kodama
 open Spec
